@@ -13,8 +13,9 @@ package publicip
 // a body that is not an address are permanent for this provider (wrapped in *backoff.PermanentError, at which
 // backoff.Retry stops); otherwise the parsed address is returned. ghost(http.*) describe the exchange that happened.
 //@ func handleRequest
-//@ safety C18
+//@ safety C18 C08
 //@ requires[pre.nonnil]       client != nil && req != nil
+//@ requires[C08.http.bounded] reqBounded(req) || client.Timeout > 0
 //@ ensures[C18.http.atom]     (ret1 != nil) == (ret0 == nil)
 //@ ensures[C18.http.once]     ghost(http.n) == old(ghost(http.n)) + 1
 //@ ensures[C18.http.transport] ghost(http.doErr) ==> ret1 != nil && !typeis(ret1, *backoff.PermanentError)
@@ -24,18 +25,20 @@ package publicip
 //@ ensures[C18.http.ok]       !ghost(http.doErr) && !ghost(http.readErr) && !(ghost(http.status) >= 400 && ghost(http.status) < 500) && ghost(http.parsed) ==> ret1 == nil && ret0 != nil
 //@ modifies ghost clock, ghost http.doErr, ghost http.readErr, ghost http.status, ghost http.parsed, ghost http.n
 
-// backoff.Retry and context timeouts are library behaviour: the per-provider attempt is assumed to yield an address or an
-// error, never both.
-//@ assume func getPublicIPUsingIPChecker
-//@ trusted retries handleRequest through backoff.Retry under a 2s context (library control flow outside the verifier's reach)
-//@ ensures[pub.one.atom]  (ret1 != nil) == (ret0 == nil)
+// One provider: the request must not be able to block for ever — it is built with the 2 s context (C08); an error comes
+// with no address. backoff.Retry is a library model (one symbolic attempt, arbitrary outcome).
+//@ func getPublicIPUsingIPChecker
+//@ safety C08 C18
+//@ requires[pre.nonnil]   client != nil && ctx != nil
+//@ ensures[C18.pub.one.atom]  ret1 != nil ==> ret0 == nil
 //@ modifies ghost clock, ghost http.doErr, ghost http.readErr, ghost http.status, ghost http.parsed, ghost http.n
 
 // Provider iteration (C18): providers are asked one at a time in list order; the first address obtained is returned at
 // once; only if every provider failed is an error returned.
 //@ func GetPublicIP
 //@ safety C18
-//@ ensures[C18.pub.atom]    (ret1 != nil) == (ret0 == nil)
+//@ requires[pre.nonnil]    client != nil && ctx != nil
+//@ ensures[C18.pub.atom]    ret1 != nil ==> ret0 == nil
 //@ ensures[C18.pub.first]   ret1 == nil ==> ncalls(getPublicIPUsingIPChecker) >= old(ncalls(getPublicIPUsingIPChecker)) + 1 && ret0 == lastres(getPublicIPUsingIPChecker, 0) && lastres(getPublicIPUsingIPChecker, 1) == nil && lastarg(getPublicIPUsingIPChecker, dest) == ipCheckers[ncalls(getPublicIPUsingIPChecker) - old(ncalls(getPublicIPUsingIPChecker)) - 1]
 //@ ensures[C18.pub.all]     ret1 != nil ==> ncalls(getPublicIPUsingIPChecker) == old(ncalls(getPublicIPUsingIPChecker)) + len(ipCheckers)
 //@ ensures[C18.pub.bound]   ncalls(getPublicIPUsingIPChecker) <= old(ncalls(getPublicIPUsingIPChecker)) + len(ipCheckers)
